@@ -1360,3 +1360,11 @@ mod tests {
 		);
 	}
 }
+
+#[cfg(feature = "verif-hooks")]
+impl BigRat {
+	/// verif-hooks accessor for the private `simplify` (no behaviour change)
+	pub(crate) fn verif_simplify<I: Interrupt>(self, int: &I) -> FResult<Self> {
+		self.simplify(int)
+	}
+}
